@@ -198,7 +198,8 @@ def classify(prog, R, rule, fns, reviewed, skip=lambda s: False, auto=None):
                 else:
                     out_ |= _exp(callers.get(c, ()), depth + 1)
             return out_
-        return sorted(_exp(callers.get(fn_, ())))
+        # a site inside a closure of F is reached under F's call contexts
+        return sorted(_exp(callers.get(fn_.split("::{closure")[0], ())))
 
     def _mid(k):
         parts = k.split("|")
@@ -271,7 +272,7 @@ def classify(prog, R, rule, fns, reviewed, skip=lambda s: False, auto=None):
                     else:
                         out_ |= _expand(callers.get(c, ()), depth + 1)
                 return out_
-            have = sorted(_expand(callers.get(s_["fn"], ())))
+            have = sorted(_expand(callers.get(s_["fn"].split("::{closure")[0], ())))      # a closure's site is reached under its parent's call contexts
             if sorted(want) != have:
                 R.ob(rule, key, False, s_["at"], f"reviewed under the call contexts {sorted(want)} but the function is now called from {have}: the reason must be re-confirmed")
                 continue
